@@ -86,8 +86,13 @@ def mutate(prog: Program, xname: str, yname: str, kind: str) -> Optional[Program
     cy = cond_on(Y)
     num = ("int", "hex", "float")
     chx, chy = find_choice_of(p, X), find_choice_of(p, Y)
+    quirk = False
     if chx is not None and chx is chy and X is not Y:
-        return None  # a member mentioning a sibling member: implicit sub-menu quirk, the documents are silent (DESIGN C01 exclusions)
+        # a member mentioning a sibling member: implicit sub-menu quirk, the documents are silent on what the tree means
+        # (DESIGN C01 exclusions) -- the reference graph is not consulted, but an ACCEPTED tree must still evaluate
+        quirk = True
+        if kind not in ("depends", "prompt_if", "member_prompt_cond", "if_block"):
+            return None
     if chx is not None and kind in ("default_value", "default_value_expr", "default_cond", "select", "imply", "imply_cond"):
         return None  # defaults / reverse dependencies on choice members "have no meaning" (language.rst): not well-formed
     if chy is not None and kind in ("select", "imply"):
@@ -172,6 +177,7 @@ def mutate(prog: Program, xname: str, yname: str, kind: str) -> Optional[Program
         X.prompt_cond = And(X.prompt_cond, cy) if X.prompt_cond is not None else cy
     else:
         raise ValueError(kind)
+    p.quirk = quirk  # type: ignore[attr-defined]
     return p
 
 
@@ -357,6 +363,13 @@ def check_tree(prog: Program, label: str, r: common.Result, mut: Optional[Tuple[
         return
     except Exception as e:  # noqa: BLE001
         r.violation({"kind": "load_raises_other", "exc": type(e).__name__, **kindsig}, f"{label} Kconfig() raised {type(e).__name__}: {e}", case)
+        return
+    if getattr(prog, "quirk", False):
+        r.count("sibling_member_trees(reference not consulted)")
+        if err is None:
+            evaluate_everywhere(files, prog, r, label, case, dict(kindsig, sibling_member=True))
+        elif "ependency loop" not in str(err):
+            r.violation({"kind": "rejected_with_other_error", **kindsig, "sibling_member": True}, f"{label} rejected with: {str(err)[:200]}", case)
         return
     if cyc is not None:
         r.outcome((files["Kconfig"], "cyclic"))
